@@ -56,7 +56,7 @@ for name, d in TABLE.items():
             L.append("  MaxRich " + v)
             continue
         L.append("  %s %s %s" % (k, "<-" if k in SUBST else "=", v))
-    L += ["  NCmtCls = %d" % ncmt, "  NCppForms = %d" % ncpp, "  NGarb = 3", "  DirectiveCls <- DirCls",
+    L += ["  NCmtCls = %d" % ncmt, "  NCppForms = %d" % ncpp, "  NGarb = 5", "  DirectiveCls <- DirCls",
           "INVARIANT WellNested", "INVARIANT GrammarInNest", "CONSTRAINT PDump"]
     open(os.path.join(SPECS, name + ".cfg"), "w").write("\n".join(L) + "\n")
 print(len(TABLE), "cfg files written")
